@@ -190,6 +190,8 @@ pub struct Engine {
     pub clients: Vec<Client>,
     pub weights: Weights,
     pub hold_jobs: bool,
+    /// jobs whose result is never delivered: a handler that never returns
+    pub stuck_jobs: std::collections::BTreeSet<u64>,
     pub step_cap: u64,
     pub hit_cap: bool,
     pub cfg: ServerCfg,
@@ -223,6 +225,7 @@ impl Engine {
             clients: Vec::new(),
             weights: Weights::default(),
             hold_jobs: false,
+            stuck_jobs: std::collections::BTreeSet::new(),
             step_cap: 200_000,
             hit_cap: false,
             cfg,
@@ -441,7 +444,7 @@ impl Engine {
         cats.push((w.poll, polls));
         cats.push((w.job_start, sim_core::queued_jobs().into_iter().map(Act::JobStart).collect()));
         if !self.hold_jobs {
-            cats.push((w.job_finish, sim_core::running_jobs().into_iter().map(Act::JobFinish).collect()));
+            cats.push((w.job_finish, sim_core::running_jobs().into_iter().filter(|j| !self.stuck_jobs.contains(j)).map(Act::JobFinish).collect()));
         }
         cats.push((w.client_step, (0..self.clients.len()).filter(|i| self.client_step_enabled(*i)).map(Act::ClientStep).collect()));
         cats.push((w.client_read, (0..self.clients.len()).filter(|i| self.client_read_enabled(*i)).map(Act::ClientRead).collect()));
